@@ -265,6 +265,11 @@ func (r *smRunner) monitor(f []string, pre, post *smSnap, err error, ret string)
 			seen[s.pid] = true
 		}
 	}
+	occ := ""
+	for _, s := range post.seats {
+		occ += b01(s.pid >= 0) + b01(s.active) + b01(s.reserved)
+	}
+	r.o.Mark("C18", f[0]+"/"+smErrName(err)+"/"+occ)
 	if cnt != r.joins-r.leave || r.m.GetPlayerCount() != cnt {
 		r.V("C18", "count_eq_joins_minus_leaves", fmt.Sprintf("%d seated (GetPlayerCount %d), %d joins - %d leaves", cnt, r.m.GetPlayerCount(), r.joins, r.leave))
 	}
